@@ -10,11 +10,12 @@
    The relation is parametrised by
      PR : how the EDIF.properties of two matched instances are related
      WR : how the two pin lists of the wire at the same index of two matched cables are related
-   and three instances are used:
-     nv_equiv     = nv_rel props_eq  wire_perm   same properties, same pins on every wire
-     nv_equiv_ord = nv_rel props_eq  eq          ... and the pins of every wire in the same order
-     nv_covered   = nv_rel props_sub eq          like nv_equiv_ord but the properties of the
-                                                 first netlist only have to occur in the second *)
+   and four instances are used:
+     nv_equiv       = nv_rel props_eq  wire_perm  same properties, same pins on every wire
+     nv_equiv_ord   = nv_rel props_eq  eq         ... and the pins of every wire in the same order
+     nv_covered_set = nv_rel props_sub wire_perm  like nv_equiv but the properties of the first
+                                                  netlist only have to occur in the second
+     nv_covered     = nv_rel props_sub eq         like nv_covered_set, pins in the same order *)
 From Coq Require Import String List Arith NArith ZArith Bool Permutation.
 From SV Require Import Base.Base Cmp.Comparer.
 Import ListNotations.
@@ -81,6 +82,7 @@ Definition nv_rel PR WR (a b : nv) : Prop :=
 Definition nv_equiv : nv -> nv -> Prop := nv_rel props_eq wire_perm.
 Definition nv_equiv_ord : nv -> nv -> Prop := nv_rel props_eq (@eq wire).
 Definition nv_covered : nv -> nv -> Prop := nv_rel props_sub (@eq wire).
+Definition nv_covered_set : nv -> nv -> Prop := nv_rel props_sub wire_perm.
 
 (* ---------- the one hole of the comparer inside the named fragment ----------
    wherever an instance of the first netlist and an instance of the second sit at the same
